@@ -686,6 +686,11 @@ func (s *programState) receiveFrom(destination parser.Destination, amount *big.I
 				return err
 			}
 
+			// a negative cap counts as zero
+			if cap.Cmp(big.NewInt(0)) == -1 {
+				cap = big.NewInt(0)
+			}
+
 			// If the remaining amt is zero, let's ignore the posting
 			if remainingAmount.Cmp(big.NewInt(0)) == 0 {
 				break
